@@ -267,26 +267,45 @@ def e(ctx):
     p = params(fi)
     exc, rem = p[0], p[1]
     cfg = cfg_of(fi)
-    apps = [c for c, b in find("$l.append($x)", fi.node)]
-    ctx.floor("stopper collection sites", len(apps), 2)
-    for c in apps:
-        nid = cfg.loc1(c)
-        gs = guard_exprs(cfg, nid)
+    # sites where something is added to a collection of stoppers: `l.append(x)` inside a loop, or
+    # `l.extend(<comprehension>)` (the comprehension's ifs play the role of the guards)
+    apps = []  # (call node, [(cond, polarity)], names bound per element, element expr)
+    for c, b in find("$l.append($x)", fi.node):
+        if isinstance(b["l"], ast.Name):
+            apps.append((c, guard_exprs(cfg, cfg.loc1(c)), None, b["x"]))
+    for c, b in find("$l.extend($g)", fi.node):
+        g = b["g"]
+        if isinstance(b["l"], ast.Name) and isinstance(g, (ast.GeneratorExp, ast.ListComp)):
+            conds = [(e_, True) for gen in g.generators for e_ in gen.ifs]
+            bound = {n.id for gen in g.generators for n in ast.walk(gen.target) if isinstance(n, ast.Name)}
+            apps.append((c, conds + guard_exprs(cfg, cfg.loc1(c)), bound, g.elt))
+    ctx.ob("stoppers are collected for outgoing and for incoming requests", len(apps) >= 2, fi, fi.node, construct="def dispatch_error: stopper collection", detail="%d collection site(s)" % len(apps))
+    for c, gs, bound, elt in apps:
         ok = False
         for e_, pol in gs:
             if pol and isinstance(e_, ast.Compare) and len(e_.ops) == 1 and isinstance(e_.ops[0], ast.Eq):
                 sides = [e_.left, e_.comparators[0]]
-                if any(isinstance(s, ast.Name) and s.id == rem for s in sides) and any(isinstance(s, ast.Name) and s.id != rem for s in sides):
-                    other = [s for s in sides if not (isinstance(s, ast.Name) and s.id == rem)][0]
+                if any(isinstance(s_, ast.Name) and s_.id == rem for s_ in sides) and any(isinstance(s_, ast.Name) and s_.id != rem for s_ in sides):
+                    other = [s_ for s_ in sides if not (isinstance(s_, ast.Name) and s_.id == rem)][0]
                     # the other side must be bound from the iterated table's key/remote component
-                    ok = _bound_by_enclosing_for(fi, cfg, c, other.id)
-        ctx.ob("a request is failed only if its remote equals the reported remote", ok, fi, c, detail="guards: %s" % [stmt_text(e_) for e_, _ in gs])
+                    ok = (other.id in bound) if bound is not None else _bound_by_enclosing_for(fi, cfg, c, other.id)
+        ctx.ob("a request is failed only if its remote equals the reported remote", ok, fi, c, detail="conditions: %s" % [stmt_text(e_) for e_, _ in gs])
+        # late binding: a closure created per iteration must not refer to the loop's variables by reference
+        for lam in [n for n in ast.walk(elt) if isinstance(n, ast.Lambda)] + ([_nested_def(fi, elt)] if isinstance(elt, ast.Name) and _nested_def(fi, elt) is not None else []):
+            loopnames = _loop_bound_names(cfg, c) if bound is None else set(bound)
+            a_ = lam.args
+            own = {x.arg for x in a_.posonlyargs + a_.args + a_.kwonlyargs}
+            body = lam.body if isinstance(lam, ast.Lambda) else lam
+            free = {n.id for n in ast.walk(body) if isinstance(n, ast.Name) and isinstance(n.ctx, ast.Load)} - own
+            late = sorted(free & loopnames)
+            ctx.ob("each stopper acts on its own request (loop variables are bound per iteration, not captured by reference)", not late, fi, c,
+                   detail="closure refers to loop variable(s) %s by reference: every stopper would act on the last request iterated" % late if late else None)
     # the loop-collected stoppers are all called
     calls_stop = []
     for n in walk_no_nested(fi.node):
         if isinstance(n, ast.For) and isinstance(n.target, ast.Name):
             for c in calls_in(n):
-                if isinstance(c.func, ast.Name) and c.func.id == n.target.id and any(isinstance(a.func, ast.Attribute) and chain(a.func.value) == chain(n.iter) for a in apps):
+                if isinstance(c.func, ast.Name) and c.func.id == n.target.id and any(isinstance(a[0].func, ast.Attribute) and chain(a[0].func.value) == chain(n.iter) for a in apps):
                     calls_stop.append(c)
     ctx.ob("every collected stopper is invoked", bool(calls_stop), fi, fi.node, construct="def dispatch_error")
     # NetworkError conversion
@@ -300,11 +319,33 @@ def e(ctx):
     ctx.ob("an exception that is not a NetworkError is replaced by a NetworkError before it is handed to requests", okc, fi, conv[0] if conv else fi.node,
            construct=stmt_text(conv[0]) if conv else "def dispatch_error")
     # every use of the exception in a stopper happens after the conversion point
-    for c in apps:
+    for c, _gs, _b, _e in apps:
         if conv:
             ctx.ob("stoppers are created after the conversion", all(not cfg.exists_path(cfg.entry, cfg.loc1(c), avoid={n.id for n in cfg.nodes if n.kind in ("T", "F") and n.ast is not None and match("isinstance(%s, error.NetworkError)" % exc, n.ast) is not None}) for _ in [0]), fi, c)
     ci = ctx.prog.cls("error.NetworkError")
     ctx.ob("NetworkError derives from the library's error base class", ctx.prog.is_subclass(ci.qn, "aiocoap.error.Error"), None, None, construct="class NetworkError")
+
+
+def _loop_bound_names(cfg, node):
+    """Names (re)bound on every iteration of the for loops enclosing node."""
+    out = set()
+    p = cfg.parent.get(id(node))
+    while p is not None:
+        if isinstance(p, (ast.For, ast.AsyncFor)):
+            out |= {n.id for n in ast.walk(p.target) if isinstance(n, ast.Name)}
+            for st in p.body:
+                for n in ast.walk(st):
+                    if isinstance(n, ast.Name) and isinstance(n.ctx, ast.Store):
+                        out.add(n.id)
+        p = cfg.parent.get(id(p))
+    return out
+
+
+def _nested_def(fi, name_node):
+    for n in walk_no_nested(fi.node):
+        if isinstance(n, (ast.FunctionDef, ast.AsyncFunctionDef)) and n.name == name_node.id:
+            return n
+    return None
 
 
 def _bound_by_enclosing_for(fi, cfg, node, name):
@@ -405,6 +446,8 @@ R.seed("C02.d", F_TM, "        self._token = (self._token + 1) % (2**64)", "    
 R.seed("C02.d", F_TM, "        return self._token.to_bytes(8, \"big\").lstrip(b\"\\0\")", "        return self._token.to_bytes(8, \"big\")[:1]", "non-injective rendering")
 R.seed("C02.e", F_TM, "            if request_remote == remote:\n                stoppers.append(", "            if True:\n                stoppers.append(", "all remotes failed")
 R.seed("C02.e", F_TM, "        if not isinstance(exception, error.NetworkError):\n            cause = exception\n            exception = error.NetworkError(str(exception))\n            exception.__cause__ = cause\n", "", "raw OSError handed to the application")
+R.seed("C02.e", F_TM, "                    lambda request=request, exception=exception: request.add_exception(\n                        exception\n                    )", "                    lambda: request.add_exception(\n                        exception\n                    )", "late-binding closure: only the last request is failed")
+R.seed("C02.e", F_TM, "        for (_, _r), (_, stopper) in self.incoming_requests.items():\n            if remote == _r:\n                stoppers.append(stopper)", "        stoppers.extend(stopper for (_, stopper) in self.incoming_requests.values())", "incoming requests of all remotes stopped")
 R.seed("C02.f", "aiocoap/protocol.py", "        if self.observation is None:\n            if not first_event.is_last:", "        if self.observation is None:\n            self.response.set_result(first_event.message)\n            if not first_event.is_last:", "second completion")
 R.seed("C02.f", "aiocoap/protocol.py", "            self.response.set_exception(first_event.exception)\n            if not isinstance(first_event.exception, error.Error):", "            if not isinstance(first_event.exception, error.Error):", "error event leaves the future pending")
 R.seed("C02.h", "aiocoap/transports/udp6.py", "        return self.sockaddr[:-1] == other.sockaddr[:-1]", "        return self.sockaddr[:1] == other.sockaddr[:1]", "port ignored")
